@@ -145,6 +145,16 @@ class PythonASTOptimizer(ast.NodeTransformer):
         """Return the current Python `global` context."""
         return self._global_ctx[-1]
 
+    def generic_visit(self, node: ast.AST) -> ast.AST:
+        """Trim unreachable statements before visiting the children of a node, so
+        that `global` declarations which are about to be eliminated as dead code are
+        not recorded as already seen."""
+        for field in ("body", "orelse", "finalbody"):
+            stmts = getattr(node, field, None)
+            if isinstance(stmts, list):
+                setattr(node, field, _filter_dead_code(stmts))
+        return super().generic_visit(node)
+
     def visit_Call(self, node: ast.Call) -> ast.AST:
         """Eliminate most calls to Python's `operator` module in favor of using native
         operators."""
